@@ -4,11 +4,17 @@ package main
 
 // C02 leg "discard": the real discard hook chain (discard.Builder, cloudflare, warcdiscardstatus,
 // reasoncode) on synthetic *http.Response values, swept exhaustively over the status code for a
-// set of cf-mitigated header shapes, compared with Warc/Discard.v.
+// set of response environments (cf-mitigated header shapes x Server / CDN headers x bodies behind a
+// watched reader), compared with Warc/Discard.v.  A hook is a function of (status, headers): after
+// every call the body reader must still yield all its bytes.
 
 import (
+	"bytes"
+	"errors"
 	"fmt"
+	"io"
 	"net/http"
+	"sort"
 	"strconv"
 	"strings"
 
@@ -19,13 +25,67 @@ import (
 	"github.com/internetarchive/Zeno/internal/pkg/config"
 )
 
+// the bodies of the environments are constants: one definition each in the case file's header
+// (literals dominate the elaboration time of a case file)
+func discardHeader() string {
+	h := "From ZenoV Require Import Lib.Harness Warc.Body Warc.Discard Warc.WarcHarness.\nOpen Scope Z_scope.\n"
+	for i, b := range dBodies {
+		h += fmt.Sprintf("Definition db%d : data := %s.\n", i, coqData(b.bytes))
+	}
+	// ... and so are the header entries and the cf-mitigated values the environments are made of
+	add := func(hd http.Header) {
+		var keys []string
+		for k := range hd {
+			keys = append(keys, k)
+		}
+		sort.Strings(keys)
+		for _, k := range keys {
+			e := coqEntry(k, hd[k])
+			if _, ok := dEntryName[e]; !ok {
+				dEntryName[e] = fmt.Sprintf("he%d", len(dEntryName))
+				h += fmt.Sprintf("Definition %s : bytes * list bytes := %s.\n", dEntryName[e], e)
+			}
+		}
+		v := coqHex([]byte(hd.Get("cf-mitigated")))
+		if _, ok := dCfName[v]; !ok {
+			dCfName[v] = fmt.Sprintf("cfv%d", len(dCfName))
+			h += fmt.Sprintf("Definition %s : bytes := %s.\n", dCfName[v], v)
+		}
+	}
+	for _, shape := range cfShapes {
+		add(buildHeader(shape))
+	}
+	for _, sv := range dServers {
+		add(dRow{shape: "absent", server: sv, extra: 1<<len(dExtras) - 1}.header())
+	}
+	return h
+}
+
+func coqCfValue(v string) string {
+	t := coqHex([]byte(v))
+	if name, ok := dCfName[t]; ok {
+		return name
+	}
+	return t
+}
+
+var dEntryName, dCfName = map[string]string{}, map[string]string{}
+
+func coqEntry(k string, vs []string) string {
+	var vt []string
+	for _, v := range vs {
+		vt = append(vt, coqHex([]byte(v)))
+	}
+	return fmt.Sprintf("(%s, %s)", coqHex([]byte(k)), coqList(vt))
+}
+
 func init() {
 	register(&Driver{
 		Name:     "discard",
-		Header:   "From ZenoV Require Import Lib.Harness Warc.Discard Warc.WarcHarness.\nOpen Scope Z_scope.\n",
+		Header:   discardHeader(),
 		CaseType: "dcase",
 		Footer:   "\nDefinition DIFF := Eval vm_compute in ddiffs cases.\nPrint DIFF.\nDefinition MON := Eval vm_compute in dmons cases.\nPrint MON.\n",
-		Rule:     "one case = (hook chain built through discard.Builder, --warc-discard-status list); for each of 10 shapes of the cf-mitigated header the chain is asked about EVERY status 100..599 plus 0, 99, 600, 999, 403000, -1; distinct by input text; non-trivial when at least one response is discarded and at least one is kept",
+		Rule:     "one case = (hook chain built through discard.Builder, --warc-discard-status list, environment seed); for each of 15 response environments (11 shapes of the cf-mitigated header x Server header (none, cloudflare and look-alikes, other CDNs) x other CDN headers x body (challenge-title page, CDN error pages of 1.3-6 KB, empty, http.NoBody) behind a watched reader, four of them fixed: Server: cloudflare without cf-mitigated) the chain is asked about EVERY status 100..599 plus 0, 99, 600, 999, 403000, -1, every call with a fresh body reader that is read to EOF afterwards; distinct by input text; non-trivial when at least one response is discarded and at least one is kept",
 		Setup:    func() { must(config.InitConfig()) },
 		Gen:      genDiscard,
 		Exec:     execDiscard,
@@ -63,6 +123,113 @@ func buildHeader(shape string) http.Header {
 	return h
 }
 
+// ---- response environments ----------------------------------------------------------------------
+
+// watchBody is the body reader handed to the hook: it counts what the hook does with it, and a
+// closed reader yields nothing any more.
+type watchBody struct {
+	data          []byte
+	off           int
+	reads, closes int
+	closed        bool
+}
+
+func (w *watchBody) Read(p []byte) (int, error) {
+	w.reads++
+	if w.closed {
+		return 0, errors.New("read on a closed body")
+	}
+	if w.off >= len(w.data) {
+		return 0, io.EOF
+	}
+	n := copy(p, w.data[w.off:])
+	w.off += n
+	return n, nil
+}
+
+func (w *watchBody) Close() error { w.closes++; w.closed = true; return nil }
+
+type dBody struct {
+	name   string
+	bytes  []byte
+	noBody bool
+}
+
+func cdnPage(title, id string, pad, tail int) []byte {
+	return []byte("<!DOCTYPE html><html><head><title>" + title + "</title></head><body><h1>" + title + "</h1><p>Ray ID: " + id + "</p>" +
+		strings.Repeat(" ", pad) + "<p>" + strings.Repeat("d", tail) + "</p></body></html>")
+}
+
+// bodies a CDN serves with 403 / 429 / 503 (and anything else): the interstitial whose title the
+// discarders of other crawlers grep for, block pages, error pages that differ only in their head
+var dBodies = []dBody{
+	{name: "challenge-title-page", bytes: cdnPage("Just a moment...", "8a1f00000000aaaa", 1100, 4000)},
+	{name: "error-1020-page", bytes: cdnPage("Access denied", "8a1f00000000bbbb", 1100, 4000)},
+	{name: "attention-required-page", bytes: cdnPage("Attention Required! | Cloudflare", "8a1f00000000cccc", 200, 1000)},
+	{name: "short-text", bytes: []byte("error code: 1020")},
+	{name: "empty", bytes: nil},
+	{name: "http.NoBody", noBody: true},
+	{name: "challenge-title-late", bytes: append(bytes.Repeat([]byte("x"), 1500), cdnPage("Just a moment...", "1", 30, 100)...)},
+}
+
+var dServers = []string{"", "", "cloudflare", "cloudflare", "cloudflare", "Cloudflare", "cloudflare-nginx", "AkamaiGHost", "nginx", "CloudFront", "ddos-guard", "Sucuri/Cloudproxy", "BunnyCDN"}
+
+type dRow struct {
+	shape  string // of the cf-mitigated header (cfShapes)
+	server string
+	extra  int // bit set of other CDN-ish headers
+	body   int // index into dBodies
+}
+
+var dExtras = [][2]string{{"Cf-Ray", "8a1f00000000aaaa-AMS"}, {"Cf-Cache-Status", "DYNAMIC"}, {"X-Cdn", "Imperva"}, {"Retry-After", "30"},
+	{"Cf-Chl-Bypass", "1"}, {"X-Amz-Cf-Id", "abc"}, {"Akamai-Grn", "0.1"}}
+
+func (rw dRow) header() http.Header {
+	h := buildHeader(rw.shape)
+	if rw.server != "" {
+		h.Set("Server", rw.server)
+	}
+	for i, kv := range dExtras {
+		if rw.extra&(1<<i) != 0 {
+			h.Set(kv[0], kv[1])
+		}
+	}
+	return h
+}
+
+// discardRows: every cf-mitigated shape in an environment drawn from the seed, then four fixed
+// environments: Server: cloudflare without / with cf-mitigated, in front of the pages above
+func discardRows(seed uint64) []dRow {
+	r := NewRng(seed*2654435761 + 17)
+	var rows []dRow
+	for _, shape := range cfShapes {
+		rows = append(rows, dRow{shape: shape, server: dServers[r.Intn(len(dServers))], extra: r.Intn(1 << len(dExtras)), body: r.Intn(len(dBodies))})
+	}
+	return append(rows,
+		dRow{shape: "absent", server: "cloudflare", extra: 1, body: 1},
+		dRow{shape: "absent", server: "cloudflare", extra: r.Intn(1 << len(dExtras)), body: 0},
+		dRow{shape: "challenge", server: "cloudflare", extra: 3, body: r.Intn(len(dBodies))},
+		dRow{shape: []string{"absent", "block", "Challenge"}[r.Intn(3)], server: "", extra: 0, body: 0})
+}
+
+// coqHeader renders the header map as Warc.Discard.header: key as stored -> values, keys sorted
+func coqHeader(h http.Header) string {
+	var keys []string
+	for k := range h {
+		keys = append(keys, k)
+	}
+	sort.Strings(keys)
+	var out []string
+	for _, k := range keys {
+		e := coqEntry(k, h[k])
+		if name, ok := dEntryName[e]; ok {
+			e = name
+		}
+		out = append(out, e)
+	}
+	return coqList(out)
+}
+
 func genDiscard(r *Rng, i int, tier string) string {
 	hooks := []string{"default", "default", "default", "default", "empty", "cf", "st", "st,cf", "cf,st", "cf,st,cf", "st,st"}[r.Intn(11)]
 	var dl []string
@@ -80,7 +247,7 @@ func genDiscard(r *Rng, i int, tier string) string {
 			}
 		}
 	}
-	return fmt.Sprintf("hooks=%s dl=%s", hooks, strings.Join(dl, ","))
+	return fmt.Sprintf("hooks=%s dl=%s env=%d", hooks, strings.Join(dl, ","), r.U64()%1000000)
 }
 
 func reasonTerm(s string) string {
@@ -132,14 +299,55 @@ func execDiscard(in string) Result {
 		}
 	}
 	hook := b.Build()
-	var cfs, obs []string
-	nd, nk := 0, 0
-	for _, shape := range cfShapes {
-		hdr := buildHeader(shape)
-		cfs = append(cfs, coqHex([]byte(hdr.Get("cf-mitigated"))))
-		var row []string
+	var seed uint64
+	fmt.Sscan(kv["env"], &seed)
+	rows := discardRows(seed)
+	var rowsT []string
+	nd, nk, touchedCalls := 0, 0, 0
+	envTags := map[string]bool{}
+	for _, rw := range rows {
+		hdr := rw.header()
+		hdrT, cfT := coqHeader(hdr), coqCfValue(hdr.Get("cf-mitigated"))
+		body := dBodies[rw.body].bytes
+		var row, left []string
+		nTouched := 0
 		for _, st := range sweepStatuses() {
-			d, why := hook(&http.Response{StatusCode: st, Header: hdr})
+			resp := &http.Response{StatusCode: st, Header: hdr}
+			var wb *watchBody
+			if dBodies[rw.body].noBody {
+				resp.Body = http.NoBody
+			} else {
+				wb = &watchBody{data: body}
+				resp.Body = wb
+			}
+			given := resp.Body
+			d, why := hook(resp)
+			// what the recorder / ProcessBody would get: resp.Body as the hook left it, read to EOF.
+			// (A watched reader nobody called and that is still in place yields all its bytes: it is
+			// actually read only at the sampled statuses and when it was touched or replaced.)
+			sampled := st == 403 || st == 429 || st == 503 || st == 200 || st == 404
+			touched := wb != nil && (wb.reads > 0 || wb.closes > 0) || resp.Body != given
+			rest := body
+			if sampled || touched {
+				rest = nil
+				if resp.Body != nil {
+					rest, _ = io.ReadAll(resp.Body)
+				}
+				if !bytes.Equal(rest, body) {
+					touched = true
+				}
+			}
+			if touched {
+				touchedCalls++
+				nTouched++
+			}
+			if sampled || touched && nTouched <= 6 {
+				restT := fmt.Sprintf("db%d", rw.body)
+				if !bytes.Equal(rest, body) {
+					restT = coqData(rest)
+				}
+				left = append(left, fmt.Sprintf("(%s, %s)", coqZ(int64(st)), restT))
+			}
 			if d {
 				nd++
 				row = append(row, fmt.Sprintf("(%s, %s)", coqZ(int64(st)), reasonTerm(why)))
@@ -152,13 +360,26 @@ func execDiscard(in string) Result {
 				}
 			}
 		}
-		obs = append(obs, coqList(row))
+		rowsT = append(rowsT, fmt.Sprintf("DR %s %s db%d %s %s", hdrT, cfT, rw.body, coqList(row), coqList(left)))
+		if rw.server != "" {
+			envTags["env:server:"+rw.server] = true
+		} else {
+			envTags["env:server:none"] = true
+		}
+		envTags["env:body:"+dBodies[rw.body].name] = true
+	}
+	if touchedCalls > 0 {
+		note(fmt.Sprintf("discard: the hook chain touched the response body in %d calls (input %s)", touchedCalls, in))
 	}
 	var ischal []string
 	for _, s := range []string{"", cloudflare.ChallengeDetected, warcdiscardstatus.InWARCDiscardStatus, reasoncode.AllPassed, reasoncode.EmptyHookChain, reasoncode.HookNotSet} {
 		ischal = append(ischal, coqBool(reasoncode.IsChallengePage(s)))
 	}
 	tags := []string{"hooks:" + kv["hooks"], fmt.Sprintf("list-len:%d", len(dl))}
+	for t := range envTags {
+		tags = append(tags, t)
+	}
+	sort.Strings(tags[2:])
 	for _, v := range dl {
 		if v == 403 {
 			tags = append(tags, "list-has-403")
@@ -166,7 +387,7 @@ func execDiscard(in string) Result {
 		}
 	}
 	return Result{
-		Term:       fmt.Sprintf("DCs %s %s %s %s %s", coqList(hooksT), coqList(dlT), coqList(cfs), coqList(obs), coqList(ischal)),
+		Term:       fmt.Sprintf("DCs %s %s %s %s", coqList(hooksT), coqList(dlT), coqList(rowsT), coqList(ischal)),
 		Tags:       tags,
 		Nontrivial: nd > 0 && nk > 0,
 	}
@@ -179,7 +400,7 @@ func shrinkDiscard(in string) []string {
 		parts := strings.Split(kv["dl"], ",")
 		for i := range parts {
 			q := append(append([]string(nil), parts[:i]...), parts[i+1:]...)
-			out = append(out, fmt.Sprintf("hooks=%s dl=%s", kv["hooks"], strings.Join(q, ",")))
+			out = append(out, fmt.Sprintf("hooks=%s dl=%s env=%s", kv["hooks"], strings.Join(q, ","), kv["env"]))
 		}
 	}
 	return out
